@@ -469,7 +469,11 @@ func runC05(c *Ctx) int {
 	for _, o := range runChildren(c, specs, 3) { // few at a time: each attack wants all cores
 		foldChild(run, o, inVegeta)
 	}
-	c05CLI(c, run)
+	select {
+	case <-childAbort: // a worker spins inside hit(): every command-level attack would only run into its watchdog
+	default:
+		c05CLI(c, run)
+	}
 	run.Floor("cli_attacks", int64(c.Pick(3, 14)))
 	run.Floor("attacks", int64(shards*per*9/10))
 	run.Floor("results_of_hits_whose_targeter_call_failed", int64(shards))
